@@ -20,7 +20,10 @@ Observed on the real asn1c built from the working tree (exploration, not proof):
      sub-language is proved (coq/Fix/LexValues.v);
  (j) 2-3 module sets with contained-subtype / value-reference chains across the modules, every file order: exit status,
      `-E -F -print-constraints` text per module and per-type files identical; printed combined constraints equal to the
-     resolution model's (coq/Fix/Pullup.v: proved order independent) and to python's own order-free evaluation."""
+     resolution model's (coq/Fix/Pullup.v: proved order independent) and to python's own order-free evaluation;
+ (m) what the output directory already holds (checks/c12_dir.py): sized base modules x option sets x stale directory states ->
+     the tree of the fresh-directory run, whatever was there; what became of each old entry equal to the model's
+     (coq/Fix/IdenticalFiles.v: identical_files proved to decide equality for every block size and length)."""
 import sys, os, itertools, hashlib
 from concurrent.futures import ThreadPoolExecutor
 sys.path.insert(0, os.path.join(os.path.dirname(os.path.abspath(__file__)), "..", "lib"))
@@ -1399,7 +1402,8 @@ def main(tier):
 
     aslr = open("/proc/sys/kernel/randomize_va_space").read().strip() if os.path.exists("/proc/sys/kernel/randomize_va_space") else "?"
     tb = ["Coq 8.16.1 kernel", "axioms under Print Assumptions: " + (", ".join(sorted(axioms)) or "none (Closed under the global context)"),
-          "extraction: ExtrOcamlBasic only; OCaml 4.13.1; ocaml/drv_c12.ml, ocaml/drv_c12p.ml (AST readers)",
+          "extraction: ExtrOcamlBasic only; OCaml 4.13.1; ocaml/drv_c12.ml, ocaml/drv_c12p.ml (AST readers), ocaml/drv_c12o.ml, ocaml/drv_c12d.ml",
+          "checks/c12_dir.py: stale-state generator, directory snapshots (kind, bytes, inode), the expected-tree oracle, the classifier of C12-inplace-file-through-symlink",
           "checks/c12.py + checks/c12_gen.py: generator, renderer, yacc_norm (the constraint-tree shape yacc builds), file comparison, finding classifiers",
           "asn1c built by vlib.build_asn1c() from the working tree; kernel.randomize_va_space=" + aslr,
           "valgrind " + ("3.19 memcheck (--error-exitcode, leak check off)" if VALGRIND else "NOT AVAILABLE: uninitialised-read oracle skipped") + "; setarch -R " + ("available" if SETARCH else "not available"),
@@ -1407,6 +1411,7 @@ def main(tier):
     return run.finish("proof", (nthm, ndis), trusted_base=tb,
                       checker_cmd="make -C /verif all && coqc -Q coq A1 coq/Props/Properties_C12.v",
                       extra_cov={"theorems": names,
+                                 "rule4": "also a case: one (base module, option set) pair of the output-directory sweep with all its stale states",
                                  "rule3": "also a case: one cross-module constraint set (2-3 files, 12 shapes of contained-subtype / value-reference chains, every file order)",
                                  "rule2": "also a case: one rich module (text generator, one of 12 option sets), one clash set (2-3 files with cross-module name clashes, every file order), one corpus file compiled to code",
                                  "rule": "a case = one generated module (random AST of the modelled algebra rendered with random layout, comments, UNION/INTERSECTION spellings) or one multi-file module set (all permutations of the file list) or one shipped corpus file",
